@@ -259,3 +259,15 @@ func VerifRuneWidth(r rune) int {
 	}
 	return w
 }
+
+// StartLoop starts the background read loop on the wrapped terminal (the
+// stepper must not be used any more) and returns a channel closed when it ends.
+func (v *VerifTerm) StartLoop() <-chan struct{} {
+	v.t.startReadLoop()
+	return v.t.readLoopDone
+}
+
+// ReaderState exposes the token reader's buffer indices.
+func (v *VerifTerm) ReaderState() (start, end, capacity int) {
+	return v.gr.start, v.gr.end, len(v.gr.data)
+}
